@@ -30,7 +30,7 @@ ASSUMPTIONS = [
     "a scalar '' is not judged (a scalar cannot be missing)",
 ]
 REACH = {"quick": {"fn:dt-extract": 1200, "fn:dt-replace": 400, "fn:dt-to_string": 400, "fn:dt-roundtrip": 400, "fn:regex": 1500, "na:all": 200, "len:0": 200,
-                   "form:proxy": 1000, "form:scalar": 500, "unit:D": 300, "unit:us": 300, "unit:ms": 100, "unit:s": 100}}
+                   "form:proxy": 1000, "form:scalar": 500, "unit:D": 300, "unit:us": 300, "unit:ms": 100, "unit:s": 100, "after-inplace-edit": 500}}
 
 EXTRACT = ["year", "month", "day", "hour", "minute", "second", "microsecond", "weekday", "isoweekday", "isoweek", "quarter"]
 TIME_PARTS = {"hour", "minute", "second", "microsecond"}
@@ -91,6 +91,13 @@ def generate(rng, tier):
         elif na == "first": vals[0] = None
         elif na == "some": vals = [None if rng.random() < 0.35 else v for v in vals]
     case["values"] = vals
+    if n and rng.random() < 0.3:
+        if fam == "regex":
+            case["edit"] = (rng.randrange(n), rng.choice(STRINGS + [None]))
+        else:
+            nv = _mk_dt(rng, case["unit"])
+            if fam == "roundtrip" and nv.year < 1000: nv = nv.replace(year=nv.year + 1000)
+            case["edit"] = (rng.randrange(n), rng.choice([nv, nv, None]))
     return case
 
 def _match_repr(m):
@@ -104,8 +111,24 @@ def _eq_py(a, b):
     return a == b and type(a) is type(b) or (a == b and isinstance(a, (list, tuple, str)))
 
 def execute(case):
+    r = _execute(case, None)
+    ed = case.get("edit")
+    if r["violations"] or not ed or not case["values"] or case["form"] == "scalar":
+        return r
+    # history clause: call once, assign one element of the same Vector object in place, call again
+    r2 = _execute(case, ed)
+    r["classes"] = r["classes"] + ["after-inplace-edit"]
+    r["violations"] = [{"key": "after-inplace-edit:" + x["key"], "msg": "after calling once and assigning one element in place: " + x["msg"]} for x in r2["violations"]]
+    return r
+
+def _execute(case, edit):
     import dataiter as di
     fam, fn, form, vals = case["fam"], case["fn"], case["form"], case["values"]
+    if edit is not None:
+        pos, newv = edit
+        old_vals = list(vals)
+        vals = list(vals)
+        vals[pos % len(vals)] = newv
     n = len(vals)
     nacls = "none" if not any(v is None for v in vals) else ("all" if all(v is None for v in vals) else "some")
     res = Result(sig=f"{fam}|{fn}|{case.get('unit', case.get('pattern'))}|{form}|na:{nacls}|{case.get('format', '')}", nontrivial=n >= 1)
@@ -114,7 +137,15 @@ def execute(case):
     # ------------------------------------------------------------------ regex
     if fam == "regex":
         pattern, flags, repl, count = case["pattern"], case["flags"], case["repl"], case["count"]
-        vec = di.Vector(gen.np_column("str", vals))
+        if edit is None:
+            vec = di.Vector(gen.np_column("str", vals))
+        else:
+            vec = di.Vector(gen.np_column("str", old_vals))
+            try:
+                vec.re.findall("a"); di.regex.sub("a", "b", vec); di.regex.search("a", vec)
+            except Exception:
+                pass
+            np.asarray(vec)[pos % len(vals)] = "" if newv is None else newv
         ref = getattr(re, fn)
         def call(target):
             if fn in ("sub", "subn"):
@@ -164,8 +195,17 @@ def execute(case):
     # ------------------------------------------------------------------ dt
     unit = case["unit"]
     res.cls(f"unit:{unit}")
-    arr = np.array(["NaT" if v is None else v.isoformat() for v in vals], dtype=f"datetime64[{unit}]")
-    vec = di.Vector(arr)
+    if edit is None:
+        arr = np.array(["NaT" if v is None else v.isoformat() for v in vals], dtype=f"datetime64[{unit}]")
+        vec = di.Vector(arr)
+    else:
+        arr = np.array(["NaT" if v is None else v.isoformat() for v in old_vals], dtype=f"datetime64[{unit}]")
+        vec = di.Vector(arr)
+        try:
+            vec.dt.year(); di.dt.month(vec); vec.dt.to_string("%Y-%m-%d"); di.dt.isoweek(vec); vec.dt.replace(day=1)
+        except Exception:
+            pass
+        np.asarray(vec)[pos % len(vals)] = np.datetime64("NaT" if newv is None else newv.isoformat(), unit)
     pre = canon.col_cells(vec)
     def run(f_module, f_proxy, *args, **kw):
         """Call in the requested form; returns list of python results aligned with vals."""
